@@ -229,7 +229,7 @@ def main(argv=None):
         d = os.path.join(ROOT, 'replays', pid)
         os.makedirs(d, exist_ok=True)
         for sig, c, detail in violations:
-            p = os.path.join(d, '%s.json' % sig)
+            p = os.path.join(d, '%s.json' % hashlib.sha1(str(sig).encode()).hexdigest()[:16])
             json.dump({'property': pid, 'tier': args.tier, 'seed': seed, 'cex': jsonable(c), 'detail': detail}, open(p, 'w'), indent=1, sort_keys=True)
             vpaths.append(p)
             print('VIOLATION property=%s replay=%s' % (pid, p))
